@@ -20,6 +20,11 @@ DELETE_CALLERS = {
     "storage_base.DataSourceMetadataSource.forget_function": "deletes the function directory under the metadata prefix",
     "storage_base.DataSourceMetadataSource.forget_everything": "deletes the metadata root",
     "storage_base.Codec.NullStrategy.store": "removes the pointer of an override key when the new result is null",
+    "storage_base.DataSourceMetadataSource.write_metadata": "removes the superseded form (plain / with-data marker) of the same custom metadata key, under the metadata prefix",
+}
+# callers whose deletion must be confined to a key built by the metadata key builder
+DELETE_ARG_VIA = {
+    "storage_base.DataSourceMetadataSource.write_metadata": "_get_metadata_key",
 }
 # which delete operation each caller may use: only the metadata source removes versions; the null
 # strategy only unlinks the mutable pointer (versions referenced by older mementos must survive)
@@ -41,6 +46,8 @@ def check(ck):
     # i.e. the cache serves a call only what was put for that call (shared with C05.R4)
     from .c05 import check_cache_reads_own_key
     from .cache_model import CacheModel
+    ck.rule("C07.R11", "override keys cannot enter the content-addressed namespace", 1)
+    ck.run(check_override_namespace, ck, "C07.R11")
     ck.rule("C07.R10", "the memory cache serves a memento only the value cached under that memento's own key", 1)
     ck.run(lambda: check_cache_reads_own_key(ck, CacheModel(ck), "C07.R10"))
     R1, R2, R3, R4, R5, R6 = ("C07.R%d" % i for i in range(1, 7))
@@ -163,6 +170,35 @@ def _check_dedupe(ck, fa, ex, outs, R2):
 
 
 
+def check_override_namespace(ck, R):
+    """Content-addressed objects live under a reserved prefix and are shared between results; a key override
+    is caller-chosen text.  The override key builder refuses (or escapes) keys that fall under the prefix the
+    content key builder uses, so no object can sit under a content key that its bytes do not hash to."""
+    ck_fa = FA(ck, "storage_base.Codec.Strategy.output_key_for_content_key")
+    tm = [A.str_template(x) for r in ck_fa.returns() if r.value is not None for x in ast.walk(r.value)]
+    tm = [t for t in tm if t is not None and t[0].endswith("{}") and len(t[0]) > 2]
+    ck.need(tm, "output_key_for_content_key: cannot identify the content prefix")
+    prefix = tm[0][0][:-2]            # 'c/'
+    stem = prefix.rstrip("/")
+    ov = FA(ck, "storage_base.Codec.Strategy.output_key_for_override_key")
+    guards = []
+    for n in ov.cfg.nodes:
+        if n.kind == "test" and (prefix in A.strings_in(n.ast) or stem in A.strings_in(n.ast)):
+            guards.append(n)
+    ok = False
+    for g in guards:
+        # on the guard's positive side the function does not return a key built from the raw override
+        raises = [r for r in ov.stmts(ast.Raise)]
+        if any(ov.inside(r, ov.pm.get(g.ast)) for r in raises if isinstance(ov.pm.get(g.ast), ast.If)):
+            ok = True
+        if any(A.call_attr(c) in ("replace", "quote", "format") for c in A.calls_in(ov.pm.get(g.ast)) if isinstance(ov.pm.get(g.ast), ast.If)):
+            ok = True
+    ck.ob(R, ov.key(None, "override-outside-content-namespace"), ok,
+          "override keys under %r are refused / escaped" % prefix if ok else
+          "a key override is used verbatim, also when it lies under %r: KeyOverrideResult(x, '%s<sha of other bytes>') puts an object under a content "
+          "key that its bytes do not hash to, and a later result that does hash to it is deduplicated against the wrong bytes" % (prefix, prefix), ov.where())
+
+
 def check_who_may_delete(ck, R4):
     """Stored objects are shared (content addressed) and referenced by mementos: the data-source delete
     operations are called only by the metadata source's forget operations (on the metadata prefix) and
@@ -179,6 +215,13 @@ def check_who_may_delete(ck, R4):
                   "%s calls %s: it may only remove the pointer (%s); deleting all versions destroys objects that older mementos still reference"
                   % (fi.qual.split(".")[-2], A.call_attr(call), sorted(DELETE_OPS[fi.qual])), A.loc(fi, call))
             continue
+        if allowed and fi.qual in DELETE_ARG_VIA and call.args:
+            fa_ = FA(ck, fi)
+            via = "call:" + DELETE_ARG_VIA[fi.qual]
+            if via not in fa_.deps(call.args[0]):
+                ck.ob(R4, "%s::%s::confined" % (fi.qual, A.call_attr(call)), False,
+                      "%s deletes a key that is not built by %s: it may only remove its own metadata files" % (fi.qual, DELETE_ARG_VIA[fi.qual]), A.loc(fi, call))
+                continue
         ck.ob(R4, "%s::%s" % (fi.qual, A.short(call, 70)), allowed,
               DELETE_CALLERS.get(fi.qual, "internal to the data source") if allowed else
               "data deletion called from %s: result objects shared by other mementos can disappear" % fi.qual, A.loc(fi, call))
